@@ -164,6 +164,22 @@ Theorem C20_foreign_request_records_nothing :
 Proof. exact foreign_request_records_nothing. Qed.
 Print Assumptions C20_foreign_request_records_nothing.
 
+Theorem C20_foreign_guard_fields : foreign_guard_fields = [s_will; s_edited].
+Proof. exact guard_fields_fact. Qed.
+Print Assumptions C20_foreign_guard_fields.
+
+Theorem C20_foreign_request_both_kinds :
+  let E := w_env (Some (r_root w_outer)) in
+  (exists st ps, handle_checkpoint E PAgentV1 (HText (Some (w_payload s_ws_o [s_abs_s_x]))) = Exit st ps /\
+                 In (mkPass w_outer ScopeNone false) ps /\ has_scope_all (Exit st ps) = false /\
+                 records E (Exit st ps) = [(w_sib, q_s_x)]) /\
+  (exists rn, decode_agent_v1 (w_payload_ai s_ws_o [s_abs_s_x]) = DOk rn /\ rn_kind rn = AiAgent) /\
+  (exists st ps, handle_checkpoint E PAgentV1 (HText (Some (w_payload_ai s_ws_o [s_abs_s_x]))) = Exit st ps /\
+                 In (mkPass w_outer ScopeNone false) ps /\ has_scope_all (Exit st ps) = false /\
+                 records E (Exit st ps) = [(w_sib, q_s_x)]).
+Proof. exact foreign_request_both_kinds. Qed.
+Print Assumptions C20_foreign_request_both_kinds.
+
 (* non-vacuity: the nested layout /ws/{o,o/i,s} *)
 Example C20_ex_workspace :
   records (w_env (Some w_ws)) (handle_checkpoint (w_env (Some w_ws)) PAgentV1 (HText (Some (w_payload s_ws w_all4))))
